@@ -58,7 +58,7 @@ type Case struct {
 	Allowed  bool             `json:"allowed"`
 	Payload  int              `json:"payload"`
 	Seg      string           `json:"seg"`
-	Split    int              `json:"split"`    // header split offset (-1 none)
+	Split    int              `json:"split"`     // header split offset (-1 none)
 	WireNeed int              `json:"wire_need"` // extra scripted matcher on the wire (forces prefetch)
 	Version  string           `json:"version,omitempty"`
 }
@@ -212,7 +212,7 @@ func recvCase(c *fw.Ctx, r *rand.Rand, i int) {
 			dbits = "/128"
 		}
 		routes = append(routes, map[string]any{
-			"match": []any{map[string]any{"remote_ip": map[string]any{"ranges": []string{srcIP + bits}}, "local_ip": map[string]any{"ranges": []string{dstIP + dbits}}}},
+			"match":  []any{map[string]any{"remote_ip": map[string]any{"ranges": []string{srcIP + bits}}, "local_ip": map[string]any{"ranges": []string{dstIP + dbits}}}},
 			"handle": []any{map[string]any{"handler": "verif_span", "name": "declared", "expand": expand}, map[string]any{"handler": "verif_sink", "name": "sink", "bufsize": 1500}}})
 	}
 	routes = append(routes, map[string]any{
@@ -505,7 +505,6 @@ func clip(b []byte, n int) []byte {
 	}
 	return b
 }
-
 
 // replay re-runs the case with the recorded index and seed (cases are a pure function of both).
 func replay(c *fw.Ctx, raw json.RawMessage) {
